@@ -10,6 +10,9 @@ C06_FILE_JOBS = [
                 "property are read back by IO::ovmb_read: counts, every edge/face/cell definition handle for handle, bottom-up flags per ReadOptions, property kind/name/type/default/"
                 "persistence; the 12 coordinates (arbitrary 64-bit patterns) and the 4 property values (arbitrary 32-bit patterns) are SYMBOLIC, substituted at the offsets of the published "
                 "layout, and must be read back bit for bit; thorough: all 4 combinations of topology_check / bottom_up_incidences", **FILE_JOB),
+    dict(name="file-roundtrip-split", harness="C06_file.cpp", entries=["harness_roundtrip_split"], shards=[{2: k} for k in (1, 2, 3)], timeout=600,
+         bounds="the TET file with its VERT chunk [0,4) re-encoded as two chunks [0,k)+[k,4), k = 1, 2, 3 (an encoding the published format permits: 'chunks split into spans'), 12 SYMBOLIC coordinates: "
+                "reads Ok, same topology handle for handle, every vertex gets the coordinates of its own span position bit for bit", **FILE_JOB),
     dict(name="file-roundtrip-fixed", harness="C06_file.cpp", entries=["harness_roundtrip_fixed"], shards=[{0: FM_TET}, {0: FM_TETP}], timeout=600, tiers=["thorough"],
          bounds="same files, the writer's own coordinates and property values (no substitution) compare equal to the written mesh", **FILE_JOB),
     dict(name="reader-edge-chunk-vs-format", harness="C07_file.cpp", entries=["harness_c06_edge_chunk"], shards=[{0: 1, 1: 1}, {0: 2, 1: 1}, {0: 4, 1: 1}], timeout=600, tiers=["thorough"],
